@@ -1557,12 +1557,16 @@ func (v *VM) execute(ctx *Context, op opcode.Opcode, parameter []byte) (err erro
 			index := t.Index(key.Item())
 			// No error on missing key.
 			if index >= 0 {
-				if t.IsReferenced() {
-					elems := t.Value().([]stackitem.MapElement)
-					v.refs.Remove(elems[index].Key)
-					v.refs.Remove(elems[index].Value)
-				}
+				// Detach the element first: if its value holds the last reference
+				// to this map, counter decrement walks through the map itself and
+				// must not see (and uncount) the removed element once again.
+				elem := t.Value().([]stackitem.MapElement)[index]
+				referenced := t.IsReferenced()
 				t.Drop(index)
+				if referenced {
+					v.refs.Remove(elem.Key)
+					v.refs.Remove(elem.Value)
+				}
 			}
 		default:
 			panic("REMOVE: invalid type")
